@@ -616,7 +616,15 @@ type c09Config struct {
 
 func runC09(c *Ctx) {
 	r := c.R
-	r.SetRule("requests generated from a grammar of the routed surface: 16 methods x bucket/object/hostile paths x 0-6 query parameters out of 28 sub-resource and paging names with values from hostile classes (empty, negative, 2^31/2^63/2^64 neighbourhood, non-numeric, NUL, invalid UTF-8, overlong, existing and garbage upload/version ids, malformed tokens) x up to 3 headers out of 14 kinds (Range, Content-MD5, copy source, streaming sha256, decoded length, conditionals, dates, force-delete, CORS, multipart form, metadata, declared length variants) x 31 bodies (valid/mutated XML for complete/delete/versioning, entity bombs, binary), against stores with objects, versions, delete markers, a version-deleted current, a key of which only delete markers remain, pending uploads with gaps and pending uploads whose bucket has been deleted; all seven backend configurations plus option variants (host-bucket, auto-bucket, no-versioning, unimplemented-page error, integrity off); every response is judged (no panic, status 200-599, error body is an S3 <Error> document whose code fits the status) and a canary script of correct requests on the fuzzed buckets and an untouched bucket runs after every 50 requests; then rounds in which 8 clients fire such requests at one server concurrently (every response judged, hang watchdog on every in-flight request, canary after each round); distinct = (config, method, route class, parameter-name set, status, error code)")
+	// A request that makes the server allocate without bound must kill this child, not the
+	// machine: 16 GiB of address space is several times what the check itself needs.
+	lim := syscall.Rlimit{Cur: 16 << 30, Max: 16 << 30}
+	if err := syscall.Setrlimit(syscall.RLIMIT_AS, &lim); err != nil {
+		r.Set("address_space_limit", "not set: "+err.Error())
+	} else {
+		r.Set("address_space_limit", "16 GiB")
+	}
+	r.SetRule("requests generated from a grammar of the routed surface: 16 methods x bucket/object/hostile paths x 0-6 query parameters out of 28 sub-resource and paging names with values from hostile classes (empty, negative, 2^31/2^63/2^64 neighbourhood, non-numeric, NUL, invalid UTF-8, overlong, existing and garbage upload/version ids, malformed tokens) x up to 3 headers out of 14 kinds (Range, Content-MD5, copy source, streaming sha256, decoded length, conditionals, dates, force-delete, CORS, multipart form, metadata, declared length variants) x 31 bodies (valid/mutated XML for complete/delete/versioning, entity bombs, binary), against stores with objects, versions, delete markers, a version-deleted current, a key of which only delete markers remain, pending uploads with gaps and pending uploads whose bucket has been deleted; all seven backend configurations plus option variants (host-bucket, auto-bucket, no-versioning, unimplemented-page error, integrity off); every response is judged (no panic, status 200-599, error body is an S3 <Error> document whose code fits the status) and a canary script of correct requests on the fuzzed buckets and an untouched bucket runs after every 50 requests; a CompleteMultipartUpload that names one 2 MiB part 10001 times, under a 16 GiB address-space limit; then rounds in which 8 clients fire such requests at one server concurrently (every response judged, hang watchdog on every in-flight request, canary after each round); distinct = (config, method, route class, parameter-name set, status, error code)")
 	perCfg := r.Pick(40000, 1000000)
 	var cfgs []c09Config
 	for _, k := range drv.AllKinds {
@@ -758,6 +766,7 @@ func runC09(c *Ctx) {
 	})
 	close(stop)
 	c09Concurrent(r, cfgs[:len(drv.AllKinds)+2])
+	c09Amplification(r)
 	if r.Thorough() {
 		c09NativeFuzz(r)
 	}
@@ -874,6 +883,54 @@ func c09Concurrent(r *rep.Reporter, cfgs []c09Config) {
 	})
 	close(stop)
 	r.Require("concurrent_requests", 10000)
+}
+
+// c09Amplification sends well-formed requests whose cost to the server may be out of all
+// proportion to their size. The child process of this check runs under an address-space
+// limit (see runC09), so a handler that tries to allocate tens of gigabytes dies with
+// "fatal error: out of memory", which the supervisor reports as a process-fatal violation,
+// instead of taking the machine down.
+func c09Amplification(r *rep.Reporter) {
+	s := mustServer(drv.Opts{Kind: drv.Mem})
+	defer s.Close()
+	s.CreateBucket("amp")
+	id, resp := mpInitiate(s, "amp", "big", nil)
+	if id == "" {
+		r.Inconclusive("amplification probe: initiate failed: " + resp.String())
+		return
+	}
+	part := bytes.Repeat([]byte("0123456789abcdef"), 2<<20/16) // 2 MiB
+	p := mpUploadPart(s, "amp", "big", id, 10000, part, nil)
+	if p.Status != 200 {
+		r.Inconclusive("amplification probe: part upload failed: " + p.String())
+		return
+	}
+	// one uploaded part named 10001 times: a complete that accepts the list assembles 20 GiB
+	var sb strings.Builder
+	sb.WriteString("<CompleteMultipartUpload>")
+	for i := 0; i < 10001; i++ {
+		sb.WriteString("<Part><PartNumber>10000</PartNumber><ETag>" + strings.ReplaceAll(p.ETag(), `"`, "&quot;") + "</ETag></Part>")
+	}
+	sb.WriteString("</CompleteMultipartUpload>")
+	q := &drv.Req{Method: "POST", Path: drv.ObjPath("amp", "big"), Query: drv.Q("uploadId", id), Body: []byte(sb.String())}
+	cresp := s.Do(q)
+	r.Eval(1)
+	r.Count("amplification_probes", 1)
+	r.Distinct("mem|amplification|complete-one-part-listed-10001-times")
+	if a, what := judgeResponse("POST", cresp); a != "" {
+		r.Violation(sig("C09", "mem", a, "amplification,complete"), "CompleteMultipartUpload naming one 2 MiB part 10001 times: "+what, respDesc(cresp))
+		return
+	}
+	if cresp.Status == 200 {
+		// accepted: then the object really has to be that list (and the process survived it)
+		h := s.Head("amp", "big")
+		if h.Header.Get("Content-Length") != fmt.Sprint(int64(len(part))*10001) {
+			r.Violation(sig("C09", "mem", "complete-accepted-but-object-wrong", "amplification,complete"), "the complete request was accepted but HEAD reports "+h.String(), nil)
+		}
+	}
+	if bad := canary(s, drv.Mem, []string{"amp"}, false, 1); bad != "" {
+		r.Violation(sig("C09", "mem", "canary-failed", "amplification,complete"), "after the repeated-part complete request a correct request fails: "+bad, nil)
+	}
 }
 
 func clipHeader(h http.Header) map[string]string {
